@@ -1553,10 +1553,13 @@ _ical_pull(struct ical_parser_s p[static 1U])
 		 * to start with a single allowed whitespace in
 		 * which case we enter the normal chop_more
 		 * procedure */
-		if (LIKELY(*BP != ' ' && *BP != '\t')) {
+		if (LIKELY(!BZ || (*BP != ' ' && *BP != '\t'))) {
+			/* no more input, or a new line begins there */
 			goto proc;
 		}
-		/* just get on with it */
+		/* a folded line after all, the blank is part of the
+		 * line break, just as in esccpy() */
+		BI++;
 	}
 chop_more:
 	/* chop _p->buf into lines (possibly multilines) */
@@ -1579,6 +1582,8 @@ chop_more:
 			sz = 0U;
 		}
 		p->six += sz;
+		/* it's all in the stash now */
+		BI = p->bsz;
 		if (eol != NULL) {
 			/* means at least we've seen a \n up there
 			 * leave a mark in the stash buffer so the
